@@ -636,11 +636,12 @@ def eval_steps(start_nodes, steps, env):
 
 def compare_values(op, a, b):
     """XPath 3.4"""
-    an, bn = is_nodeset(a), is_nodeset(b)
+    # a result tree fragment is treated like a node-set containing just its root node (XSLT 11.1)
     if isinstance(a, RTF):
-        a = to_string(a)
+        a = [a.doc]
     if isinstance(b, RTF):
-        b = to_string(b)
+        b = [b.doc]
+    an, bn = is_nodeset(a), is_nodeset(b)
     if an and bn:
         if op in ('=', '!='):
             sa = set(x.string_value() for x in a)
@@ -1227,13 +1228,12 @@ def format_number(x, pattern, df):
         max_frac = min_frac + fpart.count(df.digit)
         from fractions import Fraction
         from decimal import Decimal, ROUND_HALF_EVEN
-        v = abs(Fraction(x)) * mult
-        q = Decimal(v.numerator) / Decimal(v.denominator)
-        # exact decimal expansion of a dyadic rational is finite; use enough precision
+        # JDK 1.1 DecimalFormat works on the shortest digit string that identifies the double
+        # (Double.toString), not on its exact binary value
         import decimal
         with decimal.localcontext() as c:
             c.prec = 1200
-            q = Decimal(v.numerator) / Decimal(v.denominator)
+            q = Decimal(repr(abs(x))) * mult
             r = q.quantize(Decimal(1).scaleb(-max_frac), rounding=ROUND_HALF_EVEN)
         s = format(r, 'f')
         if '.' in s:
